@@ -21,9 +21,9 @@ func c06Part(name string, mk func(thorough bool) *c06Cfg) explore.Part {
 			New:              func() explore.Instance { return newC06Inst(cfg) },
 			MaxDepth:         cfg.depth,
 			PanicIsViolation: true,
-			Rule: fmt.Sprintf("BFS depth %d over the real sentPacketHandler (%s%s, first Initial pn %d, prefix %v): send kinds per level I/H/0-RTT/1-RTT %v (<= %d packets), ACK sets = subsets of the last %v numbers per space%s, timeout=%v at GetLossDetectionTimeout, clock steps %v, QueueProbePacket=%v (when SendMode is a PTO mode), dropI=%v dropH=%v drop0RTT=%v retry=%v recvBytes=%v recvPkt=%v; state = canon(handler, times relative to the clock) + ledger",
+			Rule: fmt.Sprintf("BFS depth %d over the real sentPacketHandler (%s%s, first Initial pn %d, prefix %v): send kinds per level I/H/0-RTT/1-RTT %v (<= %d packets), ACK sets = subsets of the last %v numbers per space%s, timeout=%v at GetLossDetectionTimeout, clock steps %v, QueueProbePacket=%v (when SendMode is a PTO mode), dropI=%v dropH=%v drop0RTT=%v retry=%v MigratedPath=%v (<= %d) recvBytes=%v recvPkt=%v; state = canon(handler, times relative to the clock) + ledger",
 				cfg.depth, cfg.pers, map[bool]string{true: " via uSentPacketHandler", false: ""}[cfg.wrapper], cfg.initialPN, cfg.prefix, cfg.sendKinds, cfg.maxSends, cfg.ackW,
-				map[bool]string{true: " + one-beyond-largest", false: ""}[cfg.ackUnsent], cfg.timeout, cfg.ticks, cfg.probe, cfg.dropI, cfg.dropH, cfg.drop0, cfg.retry, cfg.recvBytes, cfg.recvPkt),
+				map[bool]string{true: " + one-beyond-largest", false: ""}[cfg.ackUnsent], cfg.timeout, cfg.ticks, cfg.probe, cfg.dropI, cfg.dropH, cfg.drop0, cfg.retry, cfg.migrate, cfg.maxMigr, cfg.recvBytes, cfg.recvPkt),
 		}
 	})
 }
@@ -61,6 +61,25 @@ func TestVerifC06(t *testing.T) {
 				ackW:      [3]int{2: pick(th, 3, 4)},
 				ticks:     []time.Duration{120 * c06ms, 1100 * c06ms}, timeout: true, probe: true,
 				maxSends: pick(th, 4, 5), maxTicks: 2, depth: pick(th, 6, 7)}
+		}),
+		// 1-RTT space: path migration (MigratedPath) with every packet kind in flight on the old path --
+		// ordinary, ack-only, MTU-probe and path-probe packets -- followed by traffic, late ACKs
+		// and timeouts on the new path, and a second migration
+		c06Part("app-migrate", func(th bool) *c06Cfg {
+			return &c06Cfg{pers: cl, prefix: c06Confirmed,
+				sendKinds: [4][]int{c06A: {c06Elic, c06AckOnly, c06MTU, c06Path}},
+				ackW:      [3]int{2: 2},
+				ticks:     []time.Duration{120 * c06ms}, timeout: true, probe: true, migrate: true,
+				maxSends: pick(th, 4, 5), maxTicks: 1, maxMigr: 2, depth: pick(th, 6, 7)}
+		}),
+		// the same on the server (it follows the peer's new address) with STREAM + control frames
+		// per packet, and migration interleaved with the timing operations
+		c06Part("app-migrate-sv", func(th bool) *c06Cfg {
+			return &c06Cfg{pers: sv, addrValidated: true, prefix: c06Confirmed,
+				sendKinds: [4][]int{c06A: {c06Multi, c06MTU}},
+				ackW:      [3]int{2: 2},
+				ticks:     []time.Duration{30 * c06ms, 500 * c06ms}, timeout: true, probe: true, migrate: true,
+				maxSends: 3, maxMigr: 2, depth: pick(th, 6, 7)}
 		}),
 		// skipped packet numbers older than the skipped-number history (prefix: 4 PTOs = 5 skipped numbers)
 		c06Part("app-skip-history", func(th bool) *c06Cfg {
